@@ -102,7 +102,8 @@ MonEvent(M, p, k) ==
          \* inbound substream is under validation is refused at once); the consent given by an Accept stays
          \* (several open commands may be outstanding: as long as fewer answers than open commands were seen the
          \*  failure may belong to one of them)
-         ELSE [M EXCEPT !.ps[p].acc = IF s.ownopen \/ s.nans < s.nop THEN s.acc ELSE FALSE, !.ps[p].ownopen = FALSE,
+         \*  (earlier Accepts account for at most one answer each)
+         ELSE [M EXCEPT !.ps[p].acc = IF s.ownopen \/ s.nans + 1 < s.nop + s.nacc THEN s.acc ELSE FALSE, !.ps[p].ownopen = FALSE,
                         !.ps[p].nans = s.nans + 1, !.ps[p].want = FALSE]
     [] k = "recv" ->
          IF ~s.open THEN Fail(M, p, "notification received outside an open stream") ELSE M
